@@ -889,6 +889,34 @@ func runHistory(r *vh.Run, focus string, i int) {
 	srv := vh.New(vh.Conf(kind, root, pol))
 	h := &hist{r: r, focus: focus, idx: i, rng: rng, srv: srv, kind: kind, root: root, pol: pol, young: map[string]bool{}, touched: map[string]bool{}, unlisted: map[string]bool{}}
 	h.w = vh.NewWorld(r, srv, u, kind, "r")
+	if kind == vh.MemDir && (i/3)%2 == 0 {
+		// the directory under the memory store is not empty: a directory store (retain-everything policy) wrote part
+		// of the universe there first, so that content can lie in the directory, in memory, or in both
+		_ = srv.Close()
+		ds := vh.New(vh.Conf(vh.Dir, root, vh.Neutral))
+		h.w.H, h.w.Kind = ds, vh.Dir
+		for _, b := range u.Blobs {
+			if rng.Intn(10) < 7 {
+				h.w.PushBlob("r", b)
+			}
+		}
+		m := h.w.Repos["r"]
+		for _, mm := range u.Mans {
+			// plain images and indexes only: nothing the recorded findings K1/K5/K6 could attach to before the history starts
+			if mm.Subject == "" && !mm.Index && m.ValidRefs(mm) && rng.Intn(2) == 0 {
+				h.w.PutManifest("r", mm, u.Tags[rng.Intn(len(u.Tags))])
+			}
+		}
+		_ = ds.Close()
+		srv = vh.New(vh.Conf(kind, root, pol))
+		h.srv = srv
+		h.w.H, h.w.Kind = srv, kind
+		for d := range m.Stored {
+			h.young[d] = true
+		}
+		h.w.T("PRELUDE on the directory done, memory store opened over it")
+		r.Count("memdir_histories_over_populated_directory", 1)
+	}
 	for _, b := range u.Blobs {
 		if rng.Intn(10) < 7 {
 			if rs := h.w.PushBlob("r", b); rs.Status == 201 {
@@ -1093,13 +1121,26 @@ func main() {
 		r.Finish("the C05/C06 history generator (all policies, collections anywhere, aliased graphs, sha256/384/512) drives a directory store and in lockstep a memory store twin; OCI layout validation + index.json tags == tags/list == model after every operation; snapshots of both stores compared after every operation; collection + close + reopen equivalence at random points; the directory reopened as memory-over-directory at the end; plus nested repositories a, a/b, a/b/c created and emptied in every order with collections between upload and manifest; a case is one history, distinct = distinct complete traces", "histories", "histories_distinct")
 		return
 	}
-	vh.Parallel(n+ns, 16, func(i int) {
-		if i < n {
+	nslow, nnest := 0, 0
+	if focus == "C05" {
+		nslow, nnest = r.N(12, 120), r.N(16, 400)
+	}
+	vh.Parallel(n+ns+nslow+nnest, 16, func(i int) {
+		switch {
+		case i < n:
 			runHistory(r, focus, i)
-		} else {
+		case i < n+ns:
 			starvation(r, i-n)
+		case i < n+ns+nslow:
+			slowUpload(r, i-n-ns)
+		default:
+			nested(r, i-n-ns-nslow) // nested repositories created and emptied in every order (also run under C10)
 		}
 	})
+	if focus == "C05" {
+		r.Require("slow_upload_trials", int64(nslow/2))
+		r.Require("nested_trials", int64(nnest/2))
+	}
 	r.Require("histories", int64(n))
 	r.Require("collections", int64(n*3))
 	r.RequireDistinct("policy_cells", 60)
